@@ -130,6 +130,13 @@ def generate(rng, idx, tier, variant):
         ops.append(op)
         if rng.random() < 0.12:
             ops.append({'op': 'copy', 'route': rng.choice(['copy', 'copy.copy', 'deepcopy'])})
+        if rng.random() < 0.12 and not dup_labels:
+            # the history continues on reindexed objects: periods that are new have no trace yet, the others keep theirs
+            shift, grow = rng.choice([-2, -1, 0, 1, 2, 3]), rng.choice([0, 0, 1, 2])
+            ops.append({'op': 'reindex', 'shift': shift, 'grow': grow, 'fill': 7 if int_model else rng.choice([0.5, 0.5, None])})
+            n = n + grow
+            spec_shift = shift
+            solved_specs = {i - spec_shift: v for i, v in solved_specs.items() if 0 <= i - spec_shift < n}
         if rng.random() < 0.2:
             ops.append({'op': 'add_variable', 'name': f'N{len(ops)}', 'v': rng.choice(S.DYADS) if not int_model else S.BIG + rng.randrange(64)})
         elif rng.random() < 0.2:
@@ -239,6 +246,32 @@ def execute(schedule, ctx):
             ctx.log(step, 'copy')
             ctx.outcome('copy', 'ok')
             continue
+        if op['op'] == 'reindex':
+            old_labels = list(span)
+            new_spec = dict(spec['span'], origin=spec['span'].get('origin', 0) + op['shift'], n=n + op['grow'])
+            spec = dict(spec, span=new_spec)
+            kept.append((A, _trace_obs(A)))
+            kw_ = {} if op['fill'] is None else {'fill_value': op['fill']}
+            A, B, C = (m.reindex(spans.make_span(new_spec), **kw_) for m in (A, B, C))
+            for m in (A, B, C):
+                probes.get_ctl(m).columns = True
+            span = A.__dict__['span']
+            n = len(span)
+            # periods are the same period where their labels are equal: those keep what was recorded for them; for a new
+            # period nothing is recorded yet (whatever its cell holds until then), and a traced solve there behaves as
+            # an untraced one does and leaves exactly its own block
+            new_expected = {}
+            for j, lab in enumerate(list(span)):
+                src = [i for i, old in enumerate(old_labels) if _lab_eq(old, lab)]
+                new_expected[j] = expected[src[0]] if src else {'names': None, 'labels': [], 'cols': [], 'fresh': True}
+                if not src:
+                    ctx.probe('reindex:new-period-without-trace')
+            expected = new_expected
+            ctx.probe('history:reindex')
+            _check_traces(A, expected, chk, n, 'after-reindex')
+            ctx.log(step, 'reindex', op['shift'], op['grow'])
+            ctx.outcome('reindex', 'ok')
+            continue
         if op['op'] == 'add_variable':
             for m in (A, B, C):
                 if op['name'] not in m.__dict__['index']:
@@ -336,7 +369,7 @@ def execute(schedule, ctx):
             if entry == 'solve':
                 lb = la if _same_multiset_by_period(la, lb) else lb
             chk('interference/same-passes', la == lb == lc, {'traced': la[:10], 'untraced': lb[:10], 'plain': lc[:10]})
-        chk('tracing-off/no-trace-written', all(t_.is_empty() and not t_.index for t_ in B.__dict__['_trace']), None)
+        chk('tracing-off/no-trace-written', all(t_.is_empty() and not t_.index for t_ in B.__dict__['_trace'] if _is_trace(t_)), None)
 
         # ---- fidelity: extend the expectation with the block this call must have appended, from B's seam log
         if respec:
@@ -384,7 +417,7 @@ def execute(schedule, ctx):
                 if labels[-1] == 'end':
                     ctx.probe('trace-of-solved-period')
                     tr_obj = A.__dict__['_trace'][p]
-                    if not tr_obj.is_empty() and len(tr_obj.index) == len(e['labels']) and tr_obj.values.shape[0] == len(e['names']):
+                    if _is_trace(tr_obj) and not tr_obj.is_empty() and len(tr_obj.index) == len(e['labels']) and tr_obj.values.shape[0] == len(e['names']):
                         ok = all(_val_eq(tr_obj.values[i, -1], pA[alias_of.get(nm, nm)][p]) for i, nm in enumerate(e['names']) if alias_of.get(nm, nm) in pA)
                         chk('fidelity/final-snapshot-is-stored-solution', ok, {'period': p})
                 else:
@@ -397,11 +430,11 @@ def execute(schedule, ctx):
         if tracing and not respec and not reset:
             for p in attempted:
                 if expected[p]['labels'] is not None and str(pA['status'][p]) == '.' and oA['kind'] == 'return':
-                    got_ = [str(x) for x in A.__dict__['_trace'][p].index]
+                    got_ = _labels_of(A.__dict__['_trace'][p]) or []
                     chk('fidelity/solved-period-trace-ends-with-end', bool(got_) and got_[-1] == 'end', {'period': p, 'labels': got_[-4:]})
-        ctx.log(step, entry, _cls(oA), _cls(oB), [str(x) for x in pA['status'].tolist()], pA['iterations'].tolist(), [[str(x) for x in t_.index] for t_ in A.__dict__['_trace']])
+        ctx.log(step, entry, _cls(oA), _cls(oB), [str(x) for x in pA['status'].tolist()], pA['iterations'].tolist(), [_labels_of(t_) for t_ in A.__dict__['_trace']])
         ctx.outcome(entry, f"{_cls(oA)}:{'reset' if reset else ''}")
-        ctx.state([entry, _cls(oA), [len(t_.index) for t_ in A.__dict__['_trace']], [str(x) for x in pA['status'].tolist()]])
+        ctx.state([entry, _cls(oA), [len(t_.index) if _is_trace(t_) else -1 for t_ in A.__dict__['_trace']], [str(x) for x in pA['status'].tolist()]])
         # keep the three parties in step whatever happened
         for m in (B, C):
             for nm, arr in pA.items():
@@ -409,8 +442,23 @@ def execute(schedule, ctx):
                     m.__dict__['_' + nm][:] = arr
 
 
+def _is_trace(x):
+    return type(x).__name__ == 'Trace'
+
+
 def _trace_obs(m):
-    return [[list(map(str, t_.names)), [str(x) for x in t_.index], canon(np.asarray(t_.values).tolist())] for t_ in m.__dict__['_trace'].tolist()]
+    return [[list(map(str, t_.names)), [str(x) for x in t_.index], canon(np.asarray(t_.values).tolist())] if _is_trace(t_) else None for t_ in m.__dict__['_trace'].tolist()]
+
+
+def _labels_of(t_):
+    return [str(x) for x in t_.index] if _is_trace(t_) else None
+
+
+def _lab_eq(a, b):
+    try:
+        return bool(a == b)
+    except Exception:
+        return False
 
 
 def _ret_eq(a, b):
@@ -429,6 +477,11 @@ def _check_traces(A, expected, chk, n, when):
         if e['labels'] is None:
             continue
         t_ = A.__dict__['_trace'][p]
+        if not _is_trace(t_) and e.get('fresh') and e['names'] is None:
+            continue  # a period that reindex() added and nothing has been traced in yet: whatever it holds, it is no record
+        if not _is_trace(t_):
+            chk('fidelity/recorded-trace-lost', False, {'period': p, 'holds': type(t_).__name__, 'when': when})
+            continue
         if e['names'] is None:
             chk('fidelity/untouched-period-has-empty-trace', t_.is_empty() and not t_.index, {'period': p})
             continue
